@@ -744,10 +744,11 @@ func c19(o Opts) error {
 	}
 	res.Rule = "histories as in C14/C15 (load, delete, delete-where, compact, vectors, vacuum, branch, merge, revert) run twice: direct (lakeapi local on a file lake) and through the HTTP service (service.Core behind httptest, lakeapi remote client); after every operation outcome class and the contents of every branch are compared and both are checked against the specification; load bodies in {zng, zson, zjson, json, csv, tsv, vng, auto-detect}; query responses in {zng, zson, zjson, json, ndjson, csv, tsv} with and without control frames; 15 error cases (unknown ids, syntax errors, inputs failing midway, malformed tails) and a query that fails after streaming started, in every response format"
 	var sb strings.Builder
-	sb.WriteString("From ZV Require Import Base.Prelude Model.Service Model.ServiceCases.\n")
+	sb.WriteString("From ZV Require Import Base.Prelude Model.Service Model.ServiceCases Model.Channels.\n")
 	WriteCoqList(&sb, "stream_cases", "stream_case", streamCases)
-	sb.WriteString("Definition M := Eval vm_compute in (stream_mismatches stream_cases).\nPrint M.\n")
-	res.ModelCases = len(streamCases)
+	WriteCoqList(&sb, "chan_cases", "chan_case", chanCases)
+	sb.WriteString("Definition M := Eval vm_compute in (stream_mismatches stream_cases, chan_mismatches chan_cases).\nPrint M.\n")
+	res.ModelCases = len(streamCases) + len(chanCases)
 	if err := os.WriteFile(o.Out+"/cases.v", []byte(sb.String()), 0644); err != nil {
 		return err
 	}
